@@ -79,6 +79,9 @@ def _bind_module(m):
         m.matplotlib = calmodel.matplotlib_model()
     if d.get("mpldates") is _mpld:
         m.mpldates = calmodel.matplotlib_model().dates
+    import scipy as _scipy
+    if d.get("scipy") is _scipy:
+        m.scipy = arrays.ScipyProxy(_scipy)
 
 
 def _unbind_module(m):
@@ -98,6 +101,9 @@ def _unbind_module(m):
         m.matplotlib = _mpl
     if isinstance(d.get("mpldates"), calmodel._MplDates):
         m.mpldates = _mpld
+    from . import arrays as _arrays
+    if isinstance(d.get("scipy"), _arrays.ScipyProxy):
+        m.scipy = d["scipy"]._real
     for name in ("float", "int", "set"):
         if name in m.__dict__:
             del m.__dict__[name]
